@@ -129,6 +129,62 @@ func c01Case(r *obs.Run, i int) {
 		return
 	}
 
+	// the same records again through a writer that accepts only the first B bytes and then fails with a short write:
+	// the counts returned, the failing call's included, must add up to what the writer accepted
+	if len(data) > 0 {
+		var budgets []int
+		if len(data) <= 160 {
+			for b := 0; b < len(data); b++ {
+				budgets = append(budgets, b)
+			}
+		} else {
+			budgets = []int{0, 1, len(data) - 1}
+			for k := 0; k < 5; k++ {
+				budgets = append(budgets, rng.Intn(len(data)))
+			}
+			// just inside the lines that start a record part ('+' line of FASTQ, header lines)
+			for k := 0; k < len(data)-1 && len(budgets) < 40; k++ {
+				if data[k] == '\n' && (data[k+1] == '+' || data[k+1] == '@' || data[k+1] == '>') {
+					budgets = append(budgets, k+1, k+2)
+				}
+			}
+		}
+		for _, b := range budgets {
+			lw := &limitWriter{budget: b}
+			var fwr interface {
+				Write(seq.Sequence) (int, error)
+			}
+			if isFastq {
+				fw := fastq.NewWriter(lw)
+				fw.QID = qid
+				fwr = fw
+			} else {
+				fwr = fasta.NewWriter(lw, width)
+			}
+			sum, sawErr := 0, false
+			for k, rec := range recs {
+				before := lw.got
+				n, err := fwr.Write(rec.toSeq(al.a, enc, quality))
+				sum += n
+				if n != lw.got-before {
+					w["write_fault_after_bytes"] = b
+					fail("byte-count", fmt.Sprintf("underlying writer fails after %d bytes: Write of record %d returned n=%d, err=%v, but %d of its bytes were accepted", b, k, n, err, lw.got-before))
+					return
+				}
+				if err != nil {
+					sawErr = true
+					break
+				}
+			}
+			if !sawErr {
+				w["write_fault_after_bytes"] = b
+				fail("write-error-hidden", fmt.Sprintf("underlying writer failed after %d of %d bytes and no Write returned an error (counts sum to %d)", b, len(data), sum))
+				return
+			}
+			r.Count("write_fault_points", 1)
+		}
+	}
+
 	// read back with the real reader; compare after everything is consumed
 	var got []seq.Sequence
 	var err error
